@@ -232,7 +232,9 @@ func c07Build(cs c07Case) (as *rstep.ASpec, spec *core.Spec, loadErr error, appl
 	}
 	nodes := doc["nodes"].(map[string]interface{})
 	actn := nodes["act"].(map[string]interface{})
-	branching := func(n string) map[string]interface{} { return nodes[n].(map[string]interface{})["branching"].(map[string]interface{}) }
+	branching := func(n string) map[string]interface{} {
+		return nodes[n].(map[string]interface{})["branching"].(map[string]interface{})
+	}
 	switch cs.Spec {
 	case "null-node":
 		nodes["extra"] = nil
